@@ -155,5 +155,19 @@ def mutant_lookup_renamed():
         t[1] = orig
 
 
+@contextlib.contextmanager
+def mutant_indirect_key_swapped():
+    import nmea2000.pgns as P
+    t = P.master_indirect_lookup_dict["DEVICE_FUNCTION"]
+    orig = dict(t)
+    t.clear()
+    t.update({"_".join(reversed(k.split("_"))): v for k, v in orig.items()})     # function_class instead of class_function
+    try:
+        yield
+    finally:
+        t.clear()
+        t.update(orig)
+
+
 MUTANTS = {"sentinel->=": mutant_sentinel_ge, "bit-offset+1 in one decoder": mutant_shift_one_field,
-           "lookup entry renamed": mutant_lookup_renamed}
+           "lookup entry renamed": mutant_lookup_renamed, "indirect lookup key halves swapped": mutant_indirect_key_swapped}
